@@ -132,6 +132,28 @@ def check(cx):
     compare(r1, 'process_who|channel', 'WHO <channel>', wreps, chan_form + hidden_channel(MASK), chan_form + absent_channel(MASK), fw,
             'a secret channel the requester is not on')
 
+    # the channel column of every 352 line: "*", or a channel that is not secret / that the requester is on
+    r1.instance('WHO 352 channel column never names a secret channel the requester is not on')
+    for e, r in wreps:
+        if r['variant'] != 'RplWhoReply352':
+            continue
+        for c_, leaf in term_cases(r['fields'].get('channel')):
+            ctx = And(e.pc, c_)
+            if sat(ctx) is None or leaf == ('lit', '*'):
+                continue
+            # which channel is named: the mask itself (WHO #chan) or a name drawn from somewhere else
+            names = [leaf] + [t for t in subterms(leaf) if isinstance(t, tuple) and t and t[0] in ('elem', 'param')]
+            ok_ = False
+            for nm_ in names:
+                ch_ = chan(nm_)
+                vis = Or(Not(flag(field(ch_, 'modes', 'secret'))), has(field(ch_, 'users'), CONN_NICK))
+                if entails(ctx, vis)[0]:
+                    ok_ = True
+                    break
+            if not ok_:
+                r1.violation('process_who|352-channel-column|%s' % show_term(leaf)[:40], 'a WHO reply names the channel %s although it may be secret and '
+                             'the requester not on it' % show_term(leaf)[:60], loc=cx.loc(e.node))
+
     def hidden_user(u, evs):
         inv = ('flag', field(user(u), 'modes', 'invisible'))
         dis = [a for e, r in evs for a in atoms(e.pc) if a[0] == 'disjoint']
